@@ -32,6 +32,9 @@ structure MkResult where
 def shippedDataSigners : List String := ["sha", "hmac", "hmaccert", "ecc", "ecccert", "rsa", "rsacert"]
 def shippedIntSigners : List String := ["shaint", "hmacint", "eccint", "rsaint", "sha", "hmac", "ecc", "rsa"]
 
+/-- signer token without "@keyname" and ":params" -/
+def sigBase (tok : String) : String := (((tok.splitOn "@").headD tok).splitOn ":").headD tok
+
 def stripCov (s : String) : String :=
   match s.splitOn " cov=" with
   | a :: _ => a
@@ -86,14 +89,14 @@ def runMkd (f : List String) (got : String) : MkResult :=
           | r => (resText (r.bind fun _ => .ok "") ++ s!" {recEcho rec}", ["mkd-err"])
       | _ => (s!"err {recEcho rec}", ["mkd-err"])
     -- spec on the implementation's output
-    let shipped := shippedDataSigners.contains op.signer
+    let shipped := shippedDataSigners.contains (sigBase op.signer)
     let spec : List SpecFail :=
       (if isCrash got then [⟨"no-panic", "mkd", s!"MakeData crashed: {(tk got 200)}"⟩] else []) ++
       (if !implOk ∧ !isCrash got ∧ shipped then
         [⟨"builds", "data-" ++ op.signer, "MakeData refused a shipped signer on valid input"⟩] else []) ++
       (match implW with
        | some w => if implOk ∧ !Spec.wfData w then
-           [⟨"wellformed", "data-" ++ (op.signer.splitOn ":").head!, "MakeData output is not a well-formed TLV with exact lengths"⟩] else []
+           [⟨"wellformed", "data-" ++ sigBase op.signer, "MakeData output is not a well-formed TLV with exact lengths"⟩] else []
        | none => [])
     let mk : Option Mk :=
       match implOk, implW with
@@ -143,14 +146,14 @@ def runMki (f : List String) (got : String) : MkResult :=
              (if est ≥ 253 then ["sig-est-ge253"] else []))
           | r => (resText (r.bind fun _ => .ok "") ++ s!" {recEcho rec}", ["mki-err"])
       | _ => (s!"err {recEcho rec}", ["mki-err"])
-    let shipped := shippedIntSigners.contains op.signer
+    let shipped := shippedIntSigners.contains (sigBase op.signer)
     let spec : List SpecFail :=
       (if isCrash got then [⟨"no-panic", "mki", s!"MakeInterest crashed: {(tk got 200)}"⟩] else []) ++
       (if !implOk ∧ !isCrash got ∧ shipped ∧ need then
         [⟨"builds", "interest-" ++ op.signer, "MakeInterest refused a shipped signer on valid input"⟩] else []) ++
       (match implW with
        | some w => if implOk ∧ !Spec.wfInterest w then
-           [⟨"wellformed", "interest-" ++ (op.signer.splitOn ":").head!, "MakeInterest output is not a well-formed TLV with exact lengths"⟩] else []
+           [⟨"wellformed", "interest-" ++ sigBase op.signer, "MakeInterest output is not a well-formed TLV with exact lengths"⟩] else []
        | none => [])
     let mk : Option Mk :=
       match implOk, implW with
